@@ -1,6 +1,7 @@
 """Property -> harness modules.  A module may host conditions of several properties
 (the registry is filtered by property id)."""
 PROPS = {
+    'C15': ['mpgverif.harness.c15_fusion'],
     'C05': ['mpgverif.harness.kernel_vpd'],
     'C09': ['mpgverif.harness.kernel_vpd'],
     'C08': ['mpgverif.harness.c08_novel_orf'],
